@@ -266,7 +266,7 @@ def evaluate(plan, ctx):
     return Result(nt, ev)
 
 
-SUBCHECKS = [SubCheck("warm", strategy, evaluate, quick=4000, thorough=60000)]
+SUBCHECKS = [SubCheck("warm", strategy, evaluate, quick=8000, thorough=60000)]
 KNOWN = {}
 
 MANIFEST = {
